@@ -6,3 +6,4 @@ import ParsleyVerif.Props.C02
 #print axioms PV.c02_balanced
 #print axioms PV.c02_fuel_mono
 #print axioms PV.c02_facts
+#print axioms PV.c02_translated_conditions
